@@ -83,6 +83,13 @@ CHECKS = {
         "note": "The link between the binary64 twin and the rational model is checked on generated inputs only (no Flocq lemma); no primitive-float axiom is used by any theorem. Trusted: Coq kernel; math/rand draw observation (//go:debug randseednop=0); time.Sleep/HTTP client timing.",
         "technique": "Coq proof (total classification, bounded retries by induction, rational delay bounds) + exhaustive differential table and whole-loop runs",
     },
+    "C07": {
+        "category": "proof",
+        "text": "Coq theorems (Properties/C07.v): byte-level models of Go's CanonicalMIMEHeaderKey and of copyHeadersWithExtra - Authorization, Proxy-Authorization and Cookie are never stored for any header list and any spelling (a stored stripped key can only be a configured forward-auth extra), every other received name is stored under its canonical form with the comma-join of all its values in order, extras override, size <= max_headers when accepted and 413 otherwise; base64 StdEncoding round-trips every byte string of every length; payload, headers and trace of a stored message are unchanged by every operation of the queue model on both flavours (proved from Model/Queue.v), so what a dequeue returns is what the acknowledged enqueue stored; the stored payload of a published item is the decoded payload_b64. Tied to the code end to end: random bodies (empty, NUL, invalid UTF-8, sizes around max_body) and header sets over a real loopback HTTP connection into the real ingress.Server (the very r.Header net/http parsed is what the model is applied to), memory and SQLite, then pull HTTP dequeue (base64), gRPC dequeue (bytes), real PushDispatcher+HTTPDeliverer to a recording target, Admin listing; after nack/redelivery and after reopening the SQLite file.",
+        "design_ref": "DESIGN.md section 5 C07, docs/notes/C07.md",
+        "note": "Trusted: Coq kernel; net/http header parsing, encoding/json of the header map in SQLite, gRPC codec (validated end to end, not modelled); the harness.",
+        "technique": "Coq proof (header copy specification, base64 round trip, content immutability over the queue model) + end-to-end byte-exact differential run",
+    },
     "C08": {
         "category": "proof",
         "text": "Coq theorems (Properties/C08.v, parametric in sha256/hmac as Section variables): HMAC verification is characterised by an iff (three headers present after trimming, ParseInt grammar, |now-ts| <= tolerance, nonce admitted, even-length non-empty hex of either case, signature = HMAC over ts\\nmethod\\ncleaned-path\\nhex(sha256 body) under a secret valid at the signed timestamp or an inline secret); every 202 of the handler model implies the route's authentication succeeded (basic: configured user with exactly its password; forward: the service answered 2xx); every failure answers 401 / 401,403,503 and enqueues nothing (fan-out prefix stated); an accepted tampered request needs an HMAC/SHA-256/hex collision; the compile rules for auth blocks. Tied to the code by raw-socket requests against the real ingress.Server wired by the real loadAuth from Parse/Compile output, a scripted forward-auth service, every single-field and single-bit mutation of valid signed requests, clock offsets at ts+-tol+-1ns, rotating secret windows; status and queue delta compared with the model; the Gallina SHA-256/HMAC oracle compared with Go on every input.",
@@ -96,6 +103,13 @@ CHECKS = {
         "design_ref": "DESIGN.md section 5 C09, docs/notes/C09.md",
         "note": "Known finding (known_findings.jsonl): reload-tolerance-grown-after-cleanup. Trusted: Coq kernel; sync.Mutex atomicity; monotone clock is an explicit hypothesis of the theorems; the harness.",
         "technique": "Coq proof over histories (cache invariant) + white-box and black-box differential replay histories",
+    },
+    "C15": {
+        "category": "proof",
+        "text": "Coq theorems (Properties/C15.v) over a model of the publish preflight composed with the queue model's EnqueueBatch (both flavours): 200 implies published = |items| and every item stored queued; any other status leaves the queue unchanged (up to the retention prune every store call runs first); the error names the first offending item with the pass structure explicit (parse incl. in-batch duplicate ids over all items, managed-selector pass, semantic per-item pass, then the existing-id lookup); published messages are queued, attempt 0, unleased, one target of the route, payload <= max_body, headers valid and <= max_headers; the per-item fallback for a store without BatchEnqueuer is REFUTED (witness) and listed as a known finding. Tied to the code by generated batches (first invalid item at every position, every kind of invalidity, combined causes, 130/1000-item batches, pre-filled and near-full queues, every publish policy and managed-endpoint mapping, global and scoped paths) through the real admin.Server wired by the real startServers on memory, SQLite and a non-batching wrapper; status, code, item_index, published and before/after listing compared with the model.",
+        "design_ref": "DESIGN.md section 5 C15, docs/notes/C15.md",
+        "note": "Known finding (known_findings.jsonl): publish-nonbatch-store-partial (PostgresStore shape; Postgres itself cannot run here). Trusted: Coq kernel; base64/RFC3339/JSON verdicts are inputs of the model (library behaviour); the harness.",
+        "technique": "Coq proof (atomicity, first offender, shape) + differential run of the real admin publish handlers",
     },
     "C16": {
         "category": "proof",
